@@ -120,6 +120,8 @@ def _case(tier):
             if 'gyr' not in sensors and draw(st.integers(0, 3)) == 0:
                 length = draw(st.integers(31, 200))      # long outage of a correcting sensor (the gyroscope keeps propagating)
                 start = min(start, max(1, n - 300 - length - 1))
+            if draw(st.integers(0, 7)) == 0:
+                start = max(1, n - length)               # an outage that lasts to the end of the record (the last row is a dropped one)
             windows.append({'start': start, 'length': length, 'sensors': sensors})
         # constant gyroscope bias (only rendered for the filter that estimates one: Mahony), known to the user (b0) or not
         bias = draw(st.lists(gen.fl(-0.05, 0.05), min_size=3, max_size=3)) if draw(st.integers(0, 3)) else None
@@ -177,6 +179,7 @@ def evaluate(case, ctx, calibrate=None):
     ctx.label(f'filter={key}')
     ctx.nt(nontriv)
     seed = int(case['np_seed'])
+    stream_status = None
     bias_cls = 'none' if bias is None else 'known' if case.get('bias_known') else 'unknown'
     W_f, rho_f, sensor_cls = rho(key, {sn for w in case['windows'] for sn in w['sensors'] if uses[sn]}, bias_cls)
     ctx.label(f'class={sensor_cls}')
@@ -214,6 +217,7 @@ def evaluate(case, ctx, calibrate=None):
             sobj = None
         if sobj is not None:
             ctx.label('streamed')
+            stream_status = 'completed'
             q = np.array(clean[0], dtype=float)
             dropped = np.zeros(n, dtype=bool)
             for w in case['windows']:
@@ -223,22 +227,29 @@ def evaluate(case, ctx, calibrate=None):
                     q = np.array(np.asarray(sstep(q, fg[k], fa[k], fm[k])), dtype=float)
                 except ValueError:
                     ctx.label('stream_refused_with_ValueError')
-                    if not dropped[k] and not dropped[max(k-1, 0)]:
-                        pass
+                    stream_status = 'refused'
                     break
                 except Exception as e:
                     ctx.fail(f'{tag}|stream|exception|{type(e).__name__}|{which}', f'sample {k}: {type(e).__name__}: {e}'[:200])
+                    stream_status = 'failed'
                     break
                 if q.shape != (4,) or not np.all(np.isfinite(q)):
                     ctx.fail(f'{tag}|stream|nonfinite|{which}', f'update returned {q.tolist()} at sample {k} (dropped: {bool(dropped[k])}) windows {case["windows"]}')
+                    stream_status = 'failed'
                     break
                 if abs(float(np.linalg.norm(q)) - 1.0) > 1e-9:
                     ctx.fail(f'{tag}|stream|nonunit|{which}', f'|q| = {float(np.linalg.norm(q))!r} at sample {k} (dropped: {bool(dropped[k])})')
+                    stream_status = 'failed'
                     break
     try:
         faulty = run(spec, fg, fa, fm, frame, dip, seed, Qt[0], preset)
-    except ValueError:
+    except ValueError as e:
         ctx.label('refused_with_ValueError')
+        if stream_status == 'completed':
+            # The filter's own update method takes every sample of this history, dropped ones included, and answers with valid
+            # attitudes: it skips.  A ValueError from the batch run of the same filter is then not a refusal of the dropped sample
+            # (typically: a NaN made at the dropout is rejected when the NEXT, valid sample is processed).
+            ctx.fail(f'{tag}|batch_raises_ValueError_but_update_accepts_every_sample|{which}', f'{e}'[:200] + f' windows {case["windows"]}')
         return
     except Exception as e:
         ctx.fail(f'{tag}|exception|{type(e).__name__}|{which}', f'{type(e).__name__}: {e}'[:200])
